@@ -379,9 +379,78 @@ theorem ringPush_inv (cap : Nat) (hcap : 1 ≤ cap) (bs seen : List Nat) (r : Ri
 /-- after reading `bs` from a fresh reader the ring holds the last `cap` bytes of `bs`, knows their
 absolute offset, and its line number is the number of evicted line breaks + 1 -/
 theorem ringPush_spec (cap : Nat) (hcap : 1 ≤ cap) (bs : List Nat) (hlen : bs.length + 2 ≤ usizeMax) :
-    RingInv cap bs (ringPush cap ⟨[], 0, 1⟩ 0 bs) := by
-  have h0 : RingInv cap [] ⟨[], 0, 1⟩ := ⟨by simp, fun h => absurd rfl h, by simp⟩
-  have := ringPush_inv cap hcap bs [] ⟨[], 0, 1⟩ (by simpa using hlen) h0
+    RingInv cap bs (ringPush cap ⟨[], 0, 1, true⟩ 0 bs) := by
+  have h0 : RingInv cap [] ⟨[], 0, 1, true⟩ := ⟨by simp, fun h => absurd rfl h, by simp⟩
+  have := ringPush_inv cap hcap bs [] ⟨[], 0, 1, true⟩ (by simpa using hlen) h0
+  simpa using this
+
+/-- `ring_starts_line`: nothing has been evicted, or the last evicted byte was a line break -/
+def RingStarts (cap : Nat) (seen : List Nat) (r : Ring) : Prop :=
+  r.startsLine = decide (seen.length ≤ cap ∨ seen[seen.length - cap - 1]? = some 0x0A)
+
+theorem ringPush1_starts (cap : Nat) (hcap : 1 ≤ cap) (seen : List Nat) (r : Ring) (b : Nat)
+    (h : RingInv cap seen r) (hs : RingStarts cap seen r) :
+    RingStarts cap (seen ++ [b]) (ringPush1 cap r seen.length b) := by
+  obtain ⟨hbuf, _, _⟩ := h
+  unfold RingStarts at *
+  unfold ringPush1
+  simp only []
+  by_cases hfull : seen.length < cap
+  · have hk : seen.length - cap = 0 := by omega
+    rw [hk, List.drop_zero] at hbuf
+    have hne : ¬ ((if r.buf.isEmpty = true then { r with startOffset := seen.length } else r).buf.length = cap) := by
+      split <;> (simp only [hbuf]; omega)
+    rw [if_neg hne]
+    have h1 : (seen ++ [b]).length ≤ cap := by simp only [List.length_append, List.length_cons, List.length_nil]; omega
+    have h2 : seen.length ≤ cap := by omega
+    have hs' : r.startsLine = true := by rw [hs]; simp [h2]
+    have h1' : seen.length + 1 ≤ cap := by omega
+    split <;> simp [hs', h1']
+  · have hge : cap ≤ seen.length := by omega
+    have hbl : r.buf.length = cap := by rw [hbuf, List.length_drop]; omega
+    have h1 : r.buf.isEmpty = false := by
+      cases hq : r.buf with
+      | nil => rw [hq] at hbl; simp at hbl; omega
+      | cons _ _ => rfl
+    rw [h1]; simp only [Bool.false_eq_true, if_false]
+    rw [if_pos hbl]
+    cases hq : r.buf with
+    | nil => rw [hq] at hbl; simp at hbl; omega
+    | cons e tl =>
+      simp only []
+      have hdrop : seen.drop (seen.length - cap) = e :: tl := by rw [← hbuf, hq]
+      have hget : seen[seen.length - cap]? = some e := by
+        have := congrArg List.head? hdrop
+        rw [List.head?_drop] at this
+        simpa using this
+      have hidx : (seen ++ [b]).length - cap - 1 = seen.length - cap := by
+        simp only [List.length_append, List.length_cons, List.length_nil]; omega
+      have hnle : ¬ (seen ++ [b]).length ≤ cap := by
+        simp only [List.length_append, List.length_cons, List.length_nil]; omega
+      show decide (e = 0x0A) = _
+      rw [hidx, List.getElem?_append_left (by omega), hget]
+      have hnle' : ¬ seen.length + 1 ≤ cap := by omega
+      simp [hnle, hnle']
+
+theorem ringPush_starts (cap : Nat) (hcap : 1 ≤ cap) (bs seen : List Nat) (r : Ring)
+    (hlen : seen.length + bs.length + 2 ≤ usizeMax) (h : RingInv cap seen r) (hs : RingStarts cap seen r) :
+    RingStarts cap (seen ++ bs) (ringPush cap r seen.length bs) := by
+  induction bs generalizing seen r with
+  | nil => rw [List.append_nil]; exact hs
+  | cons b bs ih =>
+    rw [ringPush]
+    have h1 := ringPush1_inv cap hcap seen r b (by simp at hlen; omega) h
+    have h2 := ringPush1_starts cap hcap seen r b h hs
+    have := ih (seen ++ [b]) (ringPush1 cap r seen.length b) (by simp at hlen ⊢; omega) h1 h2
+    simp only [List.length_append, List.length_cons, List.length_nil, Nat.zero_add, List.append_assoc,
+      List.cons_append, List.nil_append] at this
+    exact this
+
+theorem ringPush_starts_spec (cap : Nat) (hcap : 1 ≤ cap) (bs : List Nat) (hlen : bs.length + 2 ≤ usizeMax) :
+    RingStarts cap bs (ringPush cap ⟨[], 0, 1, true⟩ 0 bs) := by
+  have h0 : RingInv cap [] ⟨[], 0, 1, true⟩ := ⟨by simp, fun h => absurd rfl h, by simp⟩
+  have hs0 : RingStarts cap [] ⟨[], 0, 1, true⟩ := by simp [RingStarts]
+  have := ringPush_starts cap hcap bs [] ⟨[], 0, 1, true⟩ (by simpa using hlen) h0 hs0
   simpa using this
 
 end SaphyrVerif.Lemmas.C17
